@@ -145,6 +145,7 @@ func cmdWorker(args []string) {
 		mb = 64
 	}
 	debug.SetMaxStack(mb << 20)
+	sim.Thorough = *tier == "thorough"
 
 	var jf *os.File
 	if *journal != "" {
@@ -175,7 +176,12 @@ func cmdWorker(args []string) {
 		}
 	}
 	classesSeen := map[string]bool{}
+	lastFlush := time.Now()
 	for i := *from; i < *to; i += *stride {
+		if time.Since(lastFlush) > 2*time.Second {
+			flush(false)
+			lastFlush = time.Now()
+		}
 		if time.Since(start) > *wall {
 			break
 		}
@@ -468,8 +474,11 @@ func cmdRun(args []string) {
 		fmt.Printf("VIOLATION property=%s replay=%s\n", p.ID, path)
 	}
 
-	if tot.Runs == 0 {
+	if tot.Runs == 0 && nViol == 0 {
 		die2("no run executed")
+	}
+	if tot.Runs == 0 {
+		tot.Runs = nViol // the crashed runs themselves
 	}
 	if !*noEvidence {
 		writeEvidence(p, *tier, seed, tot, len(fpset), wallS, nViol, known, w)
@@ -743,6 +752,7 @@ func cmdReplay(args []string) {
 	if p == nil {
 		die2("unknown property %s", v.Property)
 	}
+	sim.Thorough = v.Tier == "thorough"
 	if v.Crash {
 		if os.Getenv("VERIF_REPLAY_CHILD") == "1" {
 			mb := p.MaxStackMB
